@@ -18,6 +18,7 @@ bool Digest::operator==(const Digest &o) const { return memcmp(b, o.b, 32) == 0;
 static Limits g_lim;
 void configure(const Limits &l) { g_lim = l; }
 
+bool g_in_model = false;
 static uint64_t g_hits = 0, g_misses = 0, g_cache_inits = 0, g_model_counter = 0;
 
 // model computations run in library scope with model_mode: real allocator + noise, nothing logged.
@@ -25,12 +26,12 @@ struct ModelScope {
 	seam::OpCtx ctx;
 	uint32_t saved_csr;
 	explicit ModelScope(uint64_t noise) {
-		ctx.model_mode = true; ctx.noise_seed = noise; ctx.op_name = "model";
+		ctx.model_mode = true; ctx.noise_seed = noise; ctx.op_name = "model"; g_in_model = true;
 		saved_csr = seam::get_mxcsr();
 		seam::set_mxcsr(0x1F80);
 		seam::lib_enter(&ctx);
 	}
-	~ModelScope() { seam::lib_exit(); seam::set_mxcsr(saved_csr); }
+	~ModelScope() { seam::lib_exit(); seam::set_mxcsr(saved_csr); g_in_model = false; }
 };
 
 typedef std::tuple<ops::Blob, uint32_t> CKey;
